@@ -312,6 +312,15 @@ def rule_csv_tables(ctx: Ctx) -> RuleResult:
                     # computed when the subscription is made: it must depend on the header parameter
                     started = started or any(isinstance(x, ast.Name) and x.id == "header" for x in ast.walk(init))
             fields = any(x == ("attr", EV, "_fields") for h in heads for x in subterms(h.eff.arg))
+            if not fields and heads:
+                # the names collected by an explicit loop over the item's fields into the list that is joined
+                hp = p.trace.index(heads[0].eff)
+                loops = [e for e in p.trace[:hp] if e.k == "loopiter" and e.iter == ("attr", EV, "_fields")]
+                empty = [e for e in p.trace[:hp] if e.k == "loopexit" and e.d.get("iter") == ("attr", EV, "_fields") and e.d.get("n") == 0]
+                joined = [x[3][0] for x in subterms(heads[0].eff.arg) if x[0] == "mcall" and x[2] == "join" and len(x[3]) == 1]
+                fields = (bool(loops) and any(e.k == "mutate" and e.method == "append" and e.base in joined and any(
+                    y[0] == "loopvar" and y[1] == loops[0].loop for y in subterms(e.args[0])) for e in p.trace[:hp])) or \
+                    (bool(empty) and not loops and ("list",) in joined)      # an item without fields: the loop over them is not entered
             ok = len(heads) == 1 and cfg.get("header") in ("True", None) and bool(flag) and started and fields
             r.ob(ok, lambda p=p, cfg=cfg, heads=heads, flag=flag: mk_finding(
                 "CS-1", spec, None, cfg, p, "the header (the field names of the item) must be written once, before the first row, only when header is True, and the "
@@ -1415,11 +1424,14 @@ def rule_pu2(ctx: Ctx) -> RuleResult:
     ok = len(pipes) == 1
     if ok:
         names = []
-        for a in pipes[0].args:
+        from .ag import _single_assignments
+        loc = _single_assignments(md, pipes[0])
+        pargs = [loc.get(a.id, a) if isinstance(a, ast.Name) else a for a in pipes[0].args]
+        for a in pargs:
             names.append(_stage_name(ctx, m, a) or ast.unparse(a.func) if isinstance(a, ast.Call) else ast.unparse(a))
         ok = names == ["rxsci.data.batch.batch", "rxsci.container.parquet.to_record", "rxsci.container.parquet._dump_parquet"]
-        b = pipes[0].args[0]
-        bargs = [ast.unparse(x) for x in b.args] + [ast.unparse(k.value) for k in b.keywords]
+        b = pargs[0]
+        bargs = ([ast.unparse(x) for x in b.args] + [ast.unparse(k.value) for k in b.keywords]) if isinstance(b, ast.Call) else None
         ok = ok and bargs == ["batch_size"]
     r.ob(ok, lambda: Finding("PU-2", "%s::dump_to_file{stages}" % PQ, md.where(fd),
                              "dump_to_file must be batch(batch_size) -> to_record(schema) -> _dump_parquet(...); found %s" % (names if pipes else None)))
